@@ -72,6 +72,18 @@ impl State {
             (Self::ReadClosed, Flag::StopSending) => {
                 *self = Self::BothClosed { reset: false };
             }
+            (
+                Self::ClosingWrite {
+                    read_closed: false,
+                    inner,
+                },
+                Flag::Fin,
+            ) => {
+                *self = Self::ClosingWrite {
+                    read_closed: true,
+                    inner,
+                };
+            }
             (_, Flag::Reset) => {
                 buffer.clear();
                 *self = Self::BothClosed { reset: true };
@@ -332,6 +344,19 @@ mod tests {
 
         open.handle_inbound_flag(Flag::Fin, &mut Bytes::default());
         let error = open.read_barrier().unwrap_err();
+
+        assert_eq!(error.kind(), ErrorKind::BrokenPipe)
+    }
+
+    #[test]
+    fn cannot_read_after_receiving_fin_while_closing_write() {
+        let mut state = State::Open;
+
+        state.close_write_barrier().unwrap();
+        state.close_write_message_sent();
+        state.handle_inbound_flag(Flag::Fin, &mut Bytes::default());
+        state.write_closed();
+        let error = state.read_barrier().unwrap_err();
 
         assert_eq!(error.kind(), ErrorKind::BrokenPipe)
     }
